@@ -1039,7 +1039,8 @@ class BsRel(Metric):
     orientation = -1
 
     def __init__(self, num_edges=11):
-        self._edges = np.linspace(0, 1, num_edges)
+        # Not np.linspace: its values for 0.3, 0.6 and 0.7 are slightly larger than these decimals
+        self._edges = np.arange(num_edges) / float(num_edges - 1)
         self._edges[-1] = 1.001
 
     def compute_single(self, data, input_index, axis, axis_index, interval):
@@ -1078,7 +1079,8 @@ class BsRes(Metric):
     orientation = 1
 
     def __init__(self, num_edges=11):
-        self._edges = np.linspace(0, 1, num_edges)
+        # Not np.linspace: its values for 0.3, 0.6 and 0.7 are slightly larger than these decimals
+        self._edges = np.arange(num_edges) / float(num_edges - 1)
         self._edges[-1] = 1.001
 
     def compute_single(self, data, input_index, axis, axis_index, interval):
@@ -1167,7 +1169,8 @@ class BssRel(Metric):
     orientation = -1
 
     def __init__(self, num_edges=11):
-        self._edges = np.linspace(0, 1, num_edges)
+        # Not np.linspace: its values for 0.3, 0.6 and 0.7 are slightly larger than these decimals
+        self._edges = np.arange(num_edges) / float(num_edges - 1)
         self._edges[-1] = 1.001
 
     def compute_single(self, data, input_index, axis, axis_index, interval):
@@ -1207,7 +1210,8 @@ class BssRes(Metric):
     orientation = 1
 
     def __init__(self, num_edges=11):
-        self._edges = np.linspace(0, 1, num_edges)
+        # Not np.linspace: its values for 0.3, 0.6 and 0.7 are slightly larger than these decimals
+        self._edges = np.arange(num_edges) / float(num_edges - 1)
         self._edges[-1] = 1.001
 
     def compute_single(self, data, input_index, axis, axis_index, interval):
